@@ -29,6 +29,7 @@ class ServerLoop(impl.VirtualLoop):
         self.factory = None
         self.conns = {}
         self.errors = []
+        self.queue_log = []
         self.settle = settle
         self.set_exception_handler(lambda loop, ctx: self.errors.append(repr(ctx.get("exception") or ctx.get("message"))))
 
@@ -63,6 +64,19 @@ class ServerLoop(impl.VirtualLoop):
                             self.call_soon(self._own(lambda: p.connection_lost(None)))
                     t.close = close
                     self.conns[cid] = (p, t)
+                    q = getattr(p, "queue", None)
+                    if q is not None and not getattr(q, "_verif_logged", False):
+                        # what reaches the shared queue, in order (the consumer takes it from there)
+                        orig_put = q.put_nowait
+
+                        def put_nowait(item, _o=orig_put):
+                            self.queue_log.append(item)
+                            return _o(item)
+                        try:
+                            q.put_nowait = put_nowait
+                            q._verif_logged = True
+                        except Exception:
+                            pass
                     p.connection_made(t)
                 elif action[0] == "data":
                     p, t = self.conns[cid]
@@ -70,9 +84,21 @@ class ServerLoop(impl.VirtualLoop):
                         n0 = len(t.writes)
                         try:
                             p.data_received(action[1])
-                        except Exception as e:  # noqa   (asyncio would log it and close the transport)
+                        except Exception as e:  # noqa
+                            # what asyncio's transport does when data_received raises (_fatal_error): report through the
+                            # loop's exception handler, close the transport, tell the protocol the connection is lost
                             t.errors = getattr(t, "errors", []) + [type(e).__name__]
+                            self.call_exception_handler({"message": "Fatal error: protocol.data_received() call failed.",
+                                                         "exception": e, "transport": t, "protocol": p})
+                            if not t.closes:
+                                t.close_times.append(self.time())
+                                t.closes += 1
+                            if not getattr(t, "lost_reported", False):
+                                t.lost_reported = True
+                                self.call_soon(self._own(lambda: p.connection_lost(e)))
                         t.replies = getattr(t, "replies", []) + [(action[1], list(t.writes[n0:]))]
+                elif action[0] == "call":
+                    action[1]()           # something happening outside the server (the file system, the LIMS ...)
                 elif action[0] == "lost":
                     p, t = self.conns[cid]
                     if not t.closes and not getattr(t, "lost_reported", False):
@@ -157,4 +183,4 @@ def run_server_main(args, scenario, settle=0):
                 loop.close()
         except Exception:
             pass
-    return {"conns": loop.conns, "errors": loop.errors, "exit": code, "factory": loop.factory}
+    return {"conns": loop.conns, "errors": loop.errors, "exit": code, "factory": loop.factory, "queue_log": loop.queue_log}
